@@ -33,6 +33,10 @@ def gen_cases(ctx):
                        {"box": [[5, 8], [0, 2], [6, 8]], "eps": [2.0, 3.0, 4.0]},
                        # a top cladding slab and a block in the (+x,+y,+z) corner: regions that reach the upper faces without starting at 0
                        {"box": [[0, 8], [0, 8], [7, 8]], "eps": 1.5, "order": -1}, {"box": [[6, 8], [5, 8], [4, 8]], "eps": 6.0}]
+        # a conductive GDS rib with sub-pixel smoothing: its side walls sit at sub-cell positions, so the blend mask of the conductivity
+        # (and dispersion) arrays is fractional there
+        s["gds_rib"] = {"poly_um": [[-0.13, -0.07], [0.09, -0.07], [0.09, 0.11], [-0.13, 0.11]], "thickness": 0.13e-6, "z_base": 0.06e-6,
+                        "eps": 4.0, "sigma_e": 2.0e5, "smooth": True}
         s["sources"] = [{"kind": "dipole", "cell": [3, 4, 2], "pol": ctx.rng.randint(0, 2)}]
         s["detectors"] = [{"kind": "field", "box": [[1, 7], [2, 6], [1, 5]], "name": "fd", "opts": {"exact_interpolation": True}},
                           {"kind": "phasor", "box": [[2, 4], [2, 6], [3, 7]], "name": "ph"}]
